@@ -10,6 +10,7 @@
 //	--mode gen     translator: field lists / constants of the provisioning code -> GenProv.v
 //	--mode probe   prints which variant (shipped / repaired) of four behaviours the tree has
 //	--mode pairs   exhaustive small-scope grammar x every failing store-operation index
+//	--mode dir     directory family: rounds of Service.Init over several pipeline config files (dir.go)
 package main
 
 import (
@@ -37,6 +38,9 @@ type stepIn struct {
 type caseIn struct {
 	Steps []stepIn `json:"steps"`
 	Txn   bool     `json:"txn"` // import through ApplyPlan (one DB transaction) instead of Import
+	// directory family (dir.go): a case with rounds is a chain of Service.Init calls
+	API    []apiIn   `json:"api,omitempty"`
+	Rounds []roundIn `json:"rounds,omitempty"`
 }
 
 type change struct {
@@ -774,6 +778,14 @@ func caseFromJSON(m map[string]any) caseIn {
 			c.Steps[i].SetStates = [][2]int{}
 		}
 	}
+	for i := range c.Rounds {
+		if c.Rounds[i].SetStates == nil {
+			c.Rounds[i].SetStates = [][3]int{}
+		}
+		if c.Rounds[i].Dir == nil {
+			c.Rounds[i].Dir = []dirEntry{}
+		}
+	}
 	return c
 }
 
@@ -791,15 +803,21 @@ func main() {
 		fmt.Println(string(b))
 		return
 	}
-	w, err := hx.NewWriter(o, "From Verif Require Import Base.CaseCheck Prov.Import Prov.Check.", "icase")
+	w, err := hx.NewWriter(o, "From Verif Require Import Base.CaseCheck Prov.Import Prov.Check Prov.Init Prov.InitCheck.", "dcase")
 	if err != nil {
 		fmt.Fprintln(os.Stderr, err)
 		os.Exit(2)
 	}
 	fl := probe()
 	emit := func(c caseIn) {
+		if len(c.Rounds) > 0 {
+			obs0, obs := runDir(c)
+			w.Add(map[string]any{"input": c, "observed": map[string]any{"flags": fl, "before": obs0, "rounds": obs}},
+				coqDirCase(fl, c, obs0, obs))
+			return
+		}
 		obs := run(c)
-		w.Add(map[string]any{"input": c, "observed": map[string]any{"flags": fl, "steps": obs}}, coqCase(fl, c, obs))
+		w.Add(map[string]any{"input": c, "observed": map[string]any{"flags": fl, "steps": obs}}, "Imp ("+coqCase(fl, c, obs)+")")
 	}
 	switch {
 	case o.Replay != "":
@@ -820,13 +838,18 @@ func main() {
 		}
 	case o.Mode == "pairs":
 		pairs(emit, o.Shard, o.Shards)
+	case o.Mode == "dir":
+		root := hx.NewRand(o.Seed ^ 0x5d1f)
+		for i := 0; i < o.N; i++ {
+			emit(genDirCase(root.Fork(uint64(o.Shard)<<32 | uint64(i))))
+		}
 	default:
 		root := hx.NewRand(o.Seed)
 		for i := 0; i < o.N; i++ {
 			emit(genCase(root.Fork(uint64(o.Shard)<<32 | uint64(i))))
 		}
 	}
-	if err := w.Close("chk"); err != nil {
+	if err := w.Close("chkd"); err != nil {
 		fmt.Fprintln(os.Stderr, err)
 		os.Exit(2)
 	}
